@@ -228,6 +228,8 @@ class BlockNode(Node):
             },
             carry_loop_iterations=True,
             block_scope=True,
+            # Tags that are disabled where the block is rendered stay disabled in it.
+            disabled_tags=context.disabled_tags,
         )
 
         return stack_item.block.block.render(ctx, buffer)
@@ -282,6 +284,8 @@ class BlockNode(Node):
             },
             carry_loop_iterations=True,
             block_scope=True,
+            # Tags that are disabled where the block is rendered stay disabled in it.
+            disabled_tags=context.disabled_tags,
         )
         return await stack_item.block.block.render_async(ctx, buffer)
 
